@@ -43,9 +43,17 @@ class DotGraphMachine:
             rankdir=self.graph_rankdir,
         )
 
+    def _initial_node_id(self):
+        # "i", unless a state of the machine is called like that
+        state_ids = {state.id for state in self.machine.states}
+        node_id = "i"
+        while node_id in state_ids:
+            node_id = f"_{node_id}"
+        return node_id
+
     def _initial_node(self):
         node = pydot.Node(
-            "i",
+            self._initial_node_id(),
             shape="circle",
             style="filled",
             fontsize="1",
@@ -58,7 +66,7 @@ class DotGraphMachine:
 
     def _initial_edge(self):
         return pydot.Edge(
-            "i",
+            self._initial_node_id(),
             self.machine.initial_state.id,
             label="",
             color="blue",
